@@ -261,6 +261,68 @@ def b_check(case):
     return res
 
 
+# ------------------------------------------------------------------ B': lattice of "round" parameter values
+# exact coincidences (lambda*dt = -1, -2, +-i, 0.5, ... exactly) only arise for round numbers; continuous
+# draws never hit them, but users' configurations (dt = 1, nu = 1, L = 2 pi) do
+
+LAT = [0.25, 0.5, 1.0, 2.0, 4.0]
+LATTICE_FAMS = {
+    "Burgers": dict(diffusivity=LAT, convection_scale=[1.0, -1.0, 2.0]),
+    "FisherKPP": dict(diffusivity=LAT, reactivity=LAT),
+    "AllenCahn": dict(diffusivity=LAT, first_order_coefficient=LAT, third_order_coefficient=[-1.0, -2.0]),
+    "SwiftHohenberg": dict(reactivity=LAT, critical_number=[0.5, 1.0, 2.0]),
+    "KuramotoSivashinsky": dict(second_order_scale=[0.5, 1.0], fourth_order_scale=[0.25, 1.0]),
+    "KortewegDeVries": dict(convection_scale=[1.0, -6.0], dispersivity=[1.0, -1.0, 0.5], hyper_diffusivity=[0.0, 0.25], diffusivity=[0.0, 1.0]),
+    "GeneralConvectionStepper": dict(linear_coefficients=[[0.0, -1.0], [0.0, 1.0, 1.0], [-1.0, 0.0, 1.0], [0.0, 0.0, 0.0, 1.0], [1.0, 0.0, 0.25]], convection_scale=[1.0]),
+    "GeneralPolynomialStepper": dict(linear_coefficients=[[1.0, 0.0, 1.0], [0.5, 0.0, 0.25], [2.0, 0.0, 1.0], [-1.0, 0.0, 1.0]], polynomial_coefficients=[[0.0, 0.0, -1.0], [0.0, 0.0, -2.0]]),
+    "NavierStokesVorticity": dict(diffusivity=LAT, drag=[0.0, -1.0, 0.5]),
+}
+
+
+def lat_strata(tier):
+    return [dict(id="%s-D%d" % (c, D), cls=c, D=D) for c in LATTICE_FAMS for D in ((2,) if c == "NavierStokesVorticity" else (1, 2))]
+
+
+def lat_strategy(stratum, tier):
+    c, D = stratum["cls"], stratum["D"]
+    kw = {k: st.sampled_from(v) for k, v in LATTICE_FAMS[c].items()}
+    kw["order"] = st.sampled_from([2, 4, 1, 3])
+    kw["_contour"] = st.sampled_from(configs.CONTOURS)
+    return st.fixed_dictionaries(
+        dict(
+            cls=st.just(c),
+            D=st.just(D),
+            N=st.sampled_from([8, 9, 12, 16] if D == 1 else [6, 8, 9]),
+            L=st.sampled_from([1.0, 2.0, 2 * math.pi, 4 * math.pi, math.pi]),
+            dt=st.sampled_from([0.25, 0.5, 1.0, 2.0, 0.125]),
+            kw=st.fixed_dictionaries(kw),
+            state=gens.st_white(0.05, 0.5),
+        )
+    )
+
+
+def lat_check(case):
+    kw = dict(case["kw"])
+    r_, M_ = kw.pop("_contour")
+    kw["circle_radius"], kw["num_circle_points"] = r_, M_
+    if case["cls"] == "GeneralPolynomialStepper" and "linear_coefficients" in kw:
+        kw["linear_coefficients"] = list(kw["linear_coefficients"])
+    spec = dict(cls=case["cls"], D=case["D"], N=case["N"], L=case["L"], dt=case["dt"], kw=kw)
+    # keep exactness: only skip (do not rescale) configurations whose growth would overflow
+    kap = 2 * math.pi / spec["L"] * orc.rfft_wavenumbers(spec["D"], spec["N"])
+    lam = model.symbol(spec, kap)
+    if float(np.max(lam.real)) * spec["dt"] > 20:
+        res = R()
+        res.tag("lattice_growth_skipped")
+        return res
+    res = b_check(dict(spec=spec, state=case["state"], fam="lattice:" + case["cls"]))
+    z = (lam * spec["dt"]).ravel()
+    special = np.isin(np.round(z, 12), np.array([-1, -0.5, -2, -1.5, 1, 0.5, 2, 1j, -1j, 0.5j, -0.5j, 2j, -2j], dtype=complex))
+    res.tag("lattice", "hits_special_z" if special.any() else "no_special_z")
+    res.nontrivial = bool(res.nontrivial or special.any())
+    return res
+
+
 # ------------------------------------------------------------------ C: measured order of convergence
 
 C_PROBLEMS = ["KdV_scad", "Burgers_sc", "KS", "Fisher", "GenConv_sc", "KdV_mnAD", "NSVort", "AllenCahn"]
@@ -372,5 +434,6 @@ def c_check(case):
 SUBS = [
     Sub("integrator", a_check, strata=a_strata, strategy=a_strategy, n=(4, 40)),
     Sub("stepper", b_check, strata=b_strata, strategy=b_strategy, n=(4, 15)),
+    Sub("lattice", lat_check, strata=lat_strata, strategy=lat_strategy, n=(10, 60)),
     Sub("convergence", c_check, strata=c_strata, strategy=c_strategy, n=(1, 4)),
 ]
